@@ -1,7 +1,7 @@
 #!/usr/bin/env bash
 # run seed_eval for every seeded change matching the glob (default: all) against its own property's check
 # plus the extra check ids given after the glob
-cd /verif
+cd "$(dirname "${BASH_SOURCE[0]}")/.."
 glob="${1:-seeded/C*-m*}"; shift
 for d in $glob; do
   id=$(basename $d | cut -d- -f1)
